@@ -7,9 +7,14 @@ package sniffing
 
 import (
 	"bytes"
+	"context"
+	"crypto/tls"
 	"encoding/binary"
 	"fmt"
+	"io"
+	"net"
 	"strings"
+	"sync"
 
 	"pgregory.net/rapid"
 )
@@ -692,3 +697,100 @@ func c06NameCarried(name string, inputs ...[]byte) bool {
 	}
 	return false
 }
+
+// ---------------------------------------------------------------- hellos made by crypto/tls itself
+
+type c06RealKey struct {
+	name    string
+	variant int
+}
+
+var (
+	c06RealMu    sync.Mutex
+	c06RealCache = map[c06RealKey][]byte{}
+)
+
+// c06RealHello returns the first flight of a crypto/tls client (one or more TLS
+// records holding its ClientHello). Key material inside comes from crypto/rand; it
+// has no influence on any verdict (only the structure is parsed).
+func c06RealHello(name string, variant int) []byte {
+	c06RealMu.Lock()
+	defer c06RealMu.Unlock()
+	k := c06RealKey{name, variant}
+	if b, ok := c06RealCache[k]; ok {
+		return b
+	}
+	cfg := &tls.Config{ServerName: name, InsecureSkipVerify: true}
+	switch variant {
+	case 1:
+		cfg.MaxVersion = tls.VersionTLS12
+	case 2:
+		cfg.CurvePreferences = []tls.CurveID{tls.X25519}
+		cfg.NextProtos = []string{"h2", "http/1.1"}
+	case 3:
+		cfg.MinVersion = tls.VersionTLS13
+		cfg.NextProtos = []string{c06Decoy}
+		cfg.SessionTicketsDisabled = true
+	}
+	cl, sv := net.Pipe()
+	done := make(chan struct{})
+	go func() {
+		defer close(done)
+		_ = tls.Client(cl, cfg).Handshake()
+		_ = cl.Close()
+	}()
+	var out []byte
+	hdr := make([]byte, 5)
+	need := -1
+	for need != 0 {
+		if _, err := io.ReadFull(sv, hdr); err != nil {
+			break
+		}
+		body := make([]byte, int(hdr[3])<<8|int(hdr[4]))
+		if _, err := io.ReadFull(sv, body); err != nil {
+			break
+		}
+		out = append(append(out, hdr...), body...)
+		if need < 0 && len(body) >= 4 {
+			need = 4 + (int(body[1])<<16 | int(body[2])<<8 | int(body[3]))
+		}
+		need -= len(body)
+		if need < 0 {
+			need = 0
+		}
+	}
+	_ = sv.Close()
+	<-done
+	c06RealCache[k] = out
+	return out
+}
+
+// c06RealQuicHello returns the ClientHello handshake message crypto/tls emits for a
+// QUIC client (no record layer).
+func c06RealQuicHello(name string) []byte {
+	c06RealMu.Lock()
+	defer c06RealMu.Unlock()
+	k := c06RealKey{name, 100}
+	if b, ok := c06RealCache[k]; ok {
+		return b
+	}
+	q := tls.QUICClient(&tls.QUICConfig{TLSConfig: &tls.Config{ServerName: name, InsecureSkipVerify: true, MinVersion: tls.VersionTLS13, NextProtos: []string{"h3"}}})
+	q.SetTransportParameters([]byte{0x01, 0x02, 0x67, 0x10, 0x0f, 0x00})
+	var out []byte
+	if err := q.Start(context.Background()); err == nil {
+		for {
+			ev := q.NextEvent()
+			if ev.Kind == tls.QUICNoEvent {
+				break
+			}
+			if ev.Kind == tls.QUICWriteData && ev.Level == tls.QUICEncryptionLevelInitial {
+				out = append(out, ev.Data...)
+			}
+		}
+	}
+	_ = q.Close()
+	c06RealCache[k] = out
+	return out
+}
+
+var c06RealNames = []string{"example.com", "www.example.net", "a.b.c.d.e.example", "xn--p1ai.example"}
